@@ -84,7 +84,7 @@ class FakeQueue:
 
 class _Pickler(pickle.Pickler):
     def persistent_id(self, obj):
-        if isinstance(obj, FakeQueue):
+        if isinstance(obj, FakeQueue) or getattr(obj, "_vf_by_ref", False):
             _QUEUES[id(obj)] = obj
             return ("fakequeue", id(obj))
         return None
